@@ -16,6 +16,7 @@ func init() {
 		Rule: "episodes with 2-5 queues of mixed kinds (standard, priority, persistent, persistent-priority, distributed) on one worker and strategy RoundRobin/MaxLen/MinLen; static mode: worker paused, seeded populations 0-9 per queue, then resumed with concurrency 1 (reference selector replayed on exact lengths); dynamic mode: producers keep adding while it runs (round-robin share over windows in which two queues are non-empty throughout); non-trivial = >=2 queues received jobs; distinct = hash of populations, kinds, strategy and schedule",
 		Gen:   genC15,
 		Judge: judgeC15,
+		Owns:  []string{"C01.d", "C03.b"}, // "no queue with pending jobs is starved": at rest every bound queue has been served
 		NonTrivial: func(ep *Episode) bool {
 			qs := map[int]bool{}
 			for _, s := range ep.W.subs {
@@ -80,6 +81,25 @@ func genC15(r *simrt.Rand, tier string) (Cfg, *Program) {
 	} else if len(late) > 0 {
 		p.Tasks = append(p.Tasks, late)
 	}
+	if !static && r.Chance(20) {
+		// several goroutines bind further queues at the same time and submit to them: every
+		// one of these queues must be served (the binding order is ambiguous then, so the
+		// order clauses are not evaluated for such an episode)
+		for b, nb := 0, 2+r.Intn(2); b < nb; b++ {
+			var ops []Op
+			for k := r.Intn(4); k > 0; k-- {
+				ops = append(ops, Op{K: opYield})
+			}
+			ops = append(ops, Op{K: opBind, A: pick(r, memKinds)})
+			for k := 1 + r.Intn(3); k > 0; k-- {
+				n := len(p.Subs)
+				q := len(c.Queues) + r.Intn(nb+1)
+				p.Subs = append(p.Subs, SubT{N: n, Q: q, Batch: -1})
+				ops = append(ops, Op{K: opAdd, Q: q, Subs: []int{n}})
+			}
+			p.Tasks = append(p.Tasks, ops)
+		}
+	}
 	return c, p
 }
 
@@ -117,6 +137,21 @@ func judgeC15(j *judgeCtx) {
 	wd := j.wd
 	if j.ep.Res.Verdict != simrt.VDone || len(wd.qs) < 2 {
 		return
+	}
+	// binds that overlap in time: the library's binding order is not observable
+	var binds []*Call
+	for _, c := range j.r.calls {
+		if c.K == opBind {
+			binds = append(binds, c)
+		}
+	}
+	for a := 0; a < len(binds); a++ {
+		for b := a + 1; b < len(binds); b++ {
+			x, y := binds[a], binds[b]
+			if (x.Ret == 0 || y.Inv < x.Ret) && (y.Ret == 0 || x.Inv < y.Ret) {
+				return
+			}
+		}
 	}
 	nq := len(wd.qs)
 	disp := j.dispatches()
@@ -205,6 +240,7 @@ func judgeC15(j *judgeCtx) {
 	_ = taskOf
 	type win struct{ lo, hi int } // min and max observed length, -1 = not observed
 	lastByTask := map[int]uint64{}
+	prevFromByTask := map[int]uint64{}
 	prevQByTask := map[int]int{}
 	for _, d := range disp {
 		task := d.Task
@@ -245,14 +281,18 @@ func judgeC15(j *judgeCtx) {
 					if q == d.Q {
 						break
 					}
-					// a skipped queue must have been seen empty at least once
-					if w[q].lo > 0 {
+					// a skipped queue must have been seen empty at least once (a queue bound
+					// after this task's previous selection has no defined place in that cycle
+					// yet; that selection was made somewhere between the two dequeues before
+					// this one)
+					if w[q].lo > 0 && (q < len(wd.cfg.Queues) || wd.qs[q].boundRet < prevFromByTask[task]) {
 						j.add("C15.b", d.Seq, "RoundRobin went from queue %d to queue %d, skipping queue %d, which it only ever observed non-empty (>= %d) in between", prev, d.Q, q, w[q].lo)
 						return
 					}
 				}
 			}
 		}
+		prevFromByTask[task] = from
 		lastByTask[task] = d.Seq
 		prevQByTask[task] = d.Q
 	}
